@@ -13,6 +13,8 @@ import (
 	"encoding/json"
 	"errors"
 	"fmt"
+	"google.golang.org/protobuf/encoding/protowire"
+	"google.golang.org/protobuf/types/dynamicpb"
 	"io"
 	"net/http"
 	"sort"
@@ -141,7 +143,38 @@ func refUnmarshal(codec string, data []byte, m proto.Message) error {
 // canonBytes is the comparison form of a message.
 func canonBytes(m proto.Message) []byte {
 	b, _ := proto.MarshalOptions{Deterministic: true}.Marshal(m)
+	if _, dyn := m.(*dynamicpb.Message); dyn {
+		// dynamic messages marshal their fields in Go map order: put the top-level fields in field-number order
+		// (the dynamic types used here nest only generated messages)
+		b = sortTopLevelFields(b)
+	}
 	return b
+}
+
+func sortTopLevelFields(b []byte) []byte {
+	type fld struct {
+		num protowire.Number
+		raw []byte
+	}
+	var fs []fld
+	for rest := b; len(rest) > 0; {
+		num, typ, n := protowire.ConsumeTag(rest)
+		if n < 0 {
+			return b
+		}
+		m := protowire.ConsumeFieldValue(num, typ, rest[n:])
+		if m < 0 {
+			return b
+		}
+		fs = append(fs, fld{num, rest[:n+m]})
+		rest = rest[n+m:]
+	}
+	sort.SliceStable(fs, func(i, j int) bool { return fs[i].num < fs[j].num })
+	out := make([]byte, 0, len(b))
+	for _, f := range fs {
+		out = append(out, f.raw...)
+	}
+	return out
 }
 
 // ---------------------------------------------------------------------------------------
